@@ -2,7 +2,8 @@
 Events (node/node.go registerEvent/unregisterEvent 1845-1894; node/core.go RouteSendEvent 236-290,
 RouteLinkEvent/RouteMonitorEvent, RouteUnlinkEvent/RouteDemonitorEvent, RouteTerminateEvent; unregisterProcess).
 One event; consumers are plain numbers (pids). The relations on the event are the (consumer, monitor?) pairs
-kept by the TargetManager; publication fan-out goes over `GetConsumersForTarget` = one entry PER RELATION.
+kept by the TargetManager; publication fan-out goes over `GetConsumersForTarget` = one entry PER RELATION,
+served once per consumer when the loop keeps a `delivered` set (flag `dd`).
 The model mirrors the code as it is, including the subscriber counter that is only touched by subscribe /
 unsubscribe calls.
 -/
@@ -45,15 +46,24 @@ deriving Repr
 def pushLast (cap : Nat) (last : List Nat) (m : Nat) : List Nat :=
   if cap = 0 then [] else if last.length + 1 > cap then last.drop 1 ++ [m] else last ++ [m]
 
-/-- `dc` = the termination of a subscriber decrements the counter (regenerated from the source, Generated/Event.lean) -/
-def step (dc : Bool) (e : Ev) : Op → Ev × Out
+/-- the fan-out loop of RouteSendEvent with its `delivered` set: a consumer already served is skipped -/
+def dedupAux (seen : List Nat) : List Nat → List Nat
+  | [] => []
+  | a :: l => if a ∈ seen then dedupAux seen l else a :: dedupAux (a :: seen) l
+
+/-- who gets the message, given the consumers listed by the TargetManager (one entry per relation) -/
+def fanout (dd : Bool) (consumers : List Nat) : List Nat := if dd then dedupAux [] consumers else consumers
+
+/-- `dc` = the termination of a subscriber decrements the counter, `dd` = the publication fan-out serves every
+consumer once however many relations it holds (both regenerated from the source, Generated/Event.lean) -/
+def step (dc dd : Bool) (e : Ev) : Op → Ev × Out
   | .register tok notify cap =>
     if e.registered then (e, .errExist)
     else ({ Ev.init with registered := true, token := tok, notify := notify, cap := cap }, .ok)
   | .publish tok m =>
     if !e.registered then (e, .errUnknown)
     else if tok ≠ e.token then (e, .errOwner)
-    else ({ e with last := pushLast e.cap e.last m, published := e.published ++ [m] }, .delivered (e.subs.map (·.1)))
+    else ({ e with last := pushLast e.cap e.last m, published := e.published ++ [m] }, .delivered (fanout dd (e.subs.map (·.1))))
   | .sub c mon =>
     if !e.registered then (e, .errUnknown)
     else if (c, mon) ∈ e.subs then (e, .errExist)
@@ -79,9 +89,9 @@ def step (dc : Bool) (e : Ev) : Op → Ev × Out
     if !e.registered then (e, .errUnknown)
     else (Ev.init, .gone ((e.subs.filter (fun s => !s.2)).map (·.1)) ((e.subs.filter (fun s => s.2)).map (·.1)))
 
-def runOps (dc : Bool) (e : Ev) : List Op → Ev
+def runOps (dc dd : Bool) (e : Ev) : List Op → Ev
   | [] => e
-  | o :: os => runOps dc (step dc e o).1 os
+  | o :: os => runOps dc dd (step dc dd e o).1 os
 
 /-- the true number of live subscriptions (what the counter is meant to track) -/
 def Ev.live (e : Ev) : Nat := e.subs.length
